@@ -44,9 +44,13 @@ def rowcol(hh, lgk):
 
 def parse_S(line):
     w = line.split()
-    if len(w) != 12 or w[0] != "S":
+    if len(w) not in (12, 14) or w[0] != "S":
         return None
-    return dict(lgk=int(w[1]), C=int(w[2]), valid=w[3] == "1", empty=w[4] == "1", est=w[5], bounds=w[6:12])
+    d = dict(lgk=int(w[1]), C=int(w[2]), valid=w[3] == "1", empty=w[4] == "1", est=w[5], bounds=w[6:12], core=" ".join(w[:12]))
+    if len(w) == 14:
+        d["same"] = w[12] == "1"
+        d["size"] = int(w[13])
+    return d
 
 
 def flavor(lgk, c):
@@ -97,7 +101,7 @@ class C05(Spec):
                    "floating point (kxp, HIP, ICON) is executed bit-exactly in Lean Float but not reasoned about"]
 
     # ------------------------------------------------------------------ generator
-    def _stream(self, rng, h, sid, lgk, target_ratio, typed):
+    def _stream(self, rng, h, sid, lgk, target_ratio, typed, ser_p=0.04):
         """append update ops to h until roughly target_ratio*K coupons are expected"""
         k = 1 << lgk
         n = 0          # distinct values fed so far (ranges) - coupon count grows like K*log2(n/K)
@@ -125,6 +129,17 @@ class C05(Spec):
                 else:
                     h.append("updr %d %d %d" % (sid, nxt, c)); nxt += c; n += c
             lines += 1
+            r = rng.random()
+            if r < ser_p:
+                h.append("ser %d" % sid)
+            elif r < 3 * ser_p:
+                # round trip into a twin, then the same updates on both (is the estimator state reproduced?)
+                h.append("rt %d %d" % (sid, 90 + sid))
+                if rng.random() < 0.6:
+                    c = rng.choice([1, 3, max(1, n // 8)])
+                    h.append("updr %d %d %d" % (sid, nxt, c))
+                    h.append("updr %d %d %d" % (90 + sid, nxt, c))
+                    nxt += c; n += c
 
     def generate(self, rng, tier):
         hs = []
@@ -155,6 +170,11 @@ class C05(Spec):
             while n < goal and len(h) < 6000:
                 step = 1 if n < 6 * k else max(1, n // (8 * k))
                 h.append("updr 0 %d %d" % (base + n, step)); n += step
+                h.append("rt 0 90")          # serialize -> deserialize -> serialize at every stage of the stream
+                if len(h) % 5 == 0:
+                    h.append("ser 0")
+                if len(h) % 17 == 0:
+                    h.append("updr 0 %d 2" % (base + n)); h.append("updr 90 %d 2" % (base + n)); n += 2
             hs.append(h)
         # long histories: lg_k 4 (and 5) beyond the 8th window shift (kxp refresh from the bit matrix)
         for lgk in ([4] if quick else [4, 5, 6]):
@@ -166,8 +186,18 @@ class C05(Spec):
             while n < goal:
                 step = max(1, n // 6)
                 h.append("updr 0 %d %d" % (base + n, step)); n += step
+                h.append("rt 0 90"); h.append("ser 0")
+                h.append("updr 0 %d 3" % (base + n)); h.append("updr 90 %d 3" % (base + n)); n += 3
             hs.append(h)
         hs += self._union_histories(rng, tier)
+        # round trips of empty and nearly empty sketches, then the same updates on original and copy
+        for lgk in [4, 5, 8] if quick else [4, 5, 8, 11, 12]:
+            for n0 in [0, 1, 2]:
+                h = ["new 0 %d 9001" % lgk]
+                if n0:
+                    h.append("updr 0 77 %d" % n0)
+                h += ["ser 0", "rt 0 1", "updr 0 1000 5", "updr 1 1000 5", "rt 1 2", "ser 1"]
+                hs.append(h)
         # argument errors
         hs.append(["new 0 3 9001", "new 0 27 9001", "new 0 4 9001", "upd 0 str -", "upd 0 raw -", "upd 0 f64 8000000000000000",
                    "upd 0 f64 0000000000000000", "upd 0 f64 7ff8000000000000", "upd 0 f64 fff8000000000001", "upd 0 f32 7fc00000",
@@ -224,7 +254,11 @@ class C05(Spec):
             h.append("uupd %d %d" % (uid + 1, 1))
             h.append("ures %d %d" % (uid, rid))
             h.append("ures %d %d" % (uid + 1, rid + 1))
+            h.append("ser %d" % rid)
+            h.append("rt %d %d" % (rid, rid + 2))
             h.append("updr %d %d 30" % (rid, base))
+            h.append("updr %d %d 30" % (rid + 2, base))
+            h.append("rt 100 99"); h.append("ser 101")
             if rng.random() < 0.2:
                 h.append("new 50 5 %d" % (seed + 1))
                 h.append("uupd %d 50" % uid)          # incompatible seed (most likely a different seed hash)
@@ -243,7 +277,7 @@ class C05(Spec):
             try:
                 if w[0] in ("new", "unew"):
                     seeds[int(w[1])] = int(w[3])
-                elif w[0] in ("copy", "ures") and int(w[1]) in seeds:
+                elif w[0] in ("copy", "ures", "rt") and int(w[1]) in seeds:
                     seeds[int(w[2])] = seeds[int(w[1])]
                 elif w[0] == "upd" and int(w[1]) in seeds:
                     qpos[-1] = len(queries)
@@ -265,6 +299,10 @@ class C05(Spec):
         un = {}           # union id -> dict(lgk, seed, set, lg0, inputs)
         icon = {}         # (lgk, C) -> (est, bounds) seen on merged sketches
         orders = {}       # (lg0, multiset of inputs) -> final observation
+        lastobs = {}      # sketch id -> core of its last observation
+        uhist = {}        # sketch id -> update ops (without id) since creation
+        twins = {}        # sketch id -> list of (other id, C at round trip)
+        images = []       # (line index, hex, seed, lgk, expected set, merged, est)
         for i, l in enumerate(hist):
             if i >= len(impl_out):
                 break
@@ -313,6 +351,30 @@ class C05(Spec):
                 elif src in un:
                     un[dst] = dict(un[src], set=set(un[src]["set"]), inputs=list(un[src]["inputs"])); cfg.pop(dst, None)
                     tgt = (un[dst]["lgk"], un[dst]["set"], len(un[dst]["set"]) > 0)
+            elif op == "ser":
+                sid = int(w[1])
+                if sid in cfg:
+                    ww = impl_out[i].split()
+                    if len(ww) != 2 or ww[0] != "B" or any(ch not in "0123456789abcdef" for ch in ww[1]):
+                        bad.append(("serialize-failed", impl_out[i][:80], i))
+                    else:
+                        images.append((i, ww[1], cfg[sid][1], cfg[sid][0], set(sets[sid]), merged[sid], lastobs.get(sid, "").split()[5:6]))
+                continue
+            elif op == "rt":
+                src, dst = int(w[1]), int(w[2])
+                if src in cfg:
+                    if thrown or o is None:
+                        bad.append(("round-trip-rejected", "deserialize(serialize(s)) threw: C=%d lg_k=%d" % (len(sets[src]), cfg[src][0]), i))
+                        continue
+                    cfg[dst] = cfg[src]; sets[dst] = set(sets[src]); merged[dst] = merged[src]; un.pop(dst, None)
+                    uhist[dst] = list(uhist.get(src, []))
+                    twins.setdefault(dst, []).append((src, len(sets[src])))
+                    twins.setdefault(src, []).append((dst, len(sets[src])))
+                    if src in lastobs and o["core"] != lastobs[src]:
+                        bad.append(("deserialized-sketch-observably-different", "%s vs %s" % (lastobs[src][:70], o["core"][:70]), i))
+                    if not o.get("same", False):
+                        bad.append(("reserialized-image-differs", "C=%d lg_k=%d flavor=%d" % (len(sets[src]), cfg[src][0], flavor(cfg[src][0], len(sets[src]))), i))
+                    tgt = (cfg[dst][0], sets[dst], merged[dst])
             elif op == "uupd":
                 uid, sid = int(w[1]), int(w[2])
                 if uid in un and sid in cfg:
@@ -347,6 +409,22 @@ class C05(Spec):
             if o is None:
                 bad.append(("bad-observation", impl_out[i][:80], i))
                 continue
+            # bookkeeping for serialization twins
+            if op in ("new", "upd", "updr", "copy", "rt", "ures"):
+                me = int(w[2]) if op in ("copy", "rt", "ures") else int(w[1])
+                if me in cfg:
+                    if op in ("new", "ures"):
+                        uhist[me] = []; twins[me] = []
+                    elif op == "copy":
+                        uhist[me] = list(uhist.get(int(w[1]), [])); twins[me] = []
+                    elif op in ("upd", "updr"):
+                        uhist.setdefault(me, []).append(" ".join(w[:1] + w[2:]))
+                        for other, c_at in twins.get(me, []):
+                            if other in lastobs and uhist.get(other) == uhist[me] and lastobs[other] != o["core"]:
+                                key = ("deserialized-empty-sketch-estimator-state-lost" if c_at == 0
+                                       else "deserialized-sketch-diverges-after-same-updates")
+                                bad.append((key, "C at round trip=%d lg_k=%d: %s vs %s" % (c_at, o["lgk"], lastobs[other][:60], o["core"][:60]), i))
+                    lastobs[me] = o["core"]
             lgk, st, mg = tgt
             want = len(st)
             kind = "union-" if op in ("uupd", "ures", "unew") or (op == "copy" and int(w[2]) in un) else ""
@@ -364,6 +442,25 @@ class C05(Spec):
                 prev = icon.setdefault((o["lgk"], o["C"]), val)
                 if prev != val:
                     bad.append(("merged-estimate-not-a-function-of-lgk-C", "lg_k=%d C=%d: %s vs %s" % (o["lgk"], o["C"], prev[0], val[0]), i))
+        # every serialized image, decoded by the MODEL's decoder (independent of the implementation's), must hold exactly the coupon set
+        if images:
+            try:
+                out, oc, err = core.run_model("dsmodel_cpc", "cpc", ["decode %s %d" % (hx, sd) for _, hx, sd, _, _, _, _ in images], timeout=300)
+            except Exception as e:
+                out = []
+            for (i, hx, sd, lgk, st, mg, est), l in zip(images, out):
+                d = l.split()
+                if len(d) < 8 or d[0] != "D":
+                    bad.append(("image-undecodable", "lg_k=%d C=%d: %s" % (lgk, len(st), l[:40]), i))
+                    continue
+                if int(d[1]) != lgk or int(d[2]) != len(st) or set(int(x) for x in d[8:]) != st:
+                    bad.append(("image-coupon-set-differs", "lg_k=%d C=%d flavor=%d: image has lg_k=%s C=%s" % (lgk, len(st), flavor(lgk, len(st)), d[1], d[2]), i))
+                if int(d[3]) != min(offset_of(lgk, len(st)), 56):
+                    bad.append(("image-window-offset-wrong", "offset %s expected %d" % (d[3], offset_of(lgk, len(st))), i))
+                if (d[5] == "1") != bool(mg):
+                    bad.append(("image-merged-flag-wrong", l[:40], i))
+                if not mg and st and est and d[7] != est[0]:
+                    bad.append(("image-hip-register-differs", "image %s, get_estimate %s" % (d[7], est[0]), i))
         return bad
 
     def nontrivial_key(self, hist, impl_out):
